@@ -73,10 +73,14 @@ def run(ctx):
     r202(ctx)
     r203(ctx)
     r206(ctx)
+    from . import c06 as _c06, meta_rules as _mr
+    _c06.r64(ctx, ctx.repo['api'])
+    _c06.r65(ctx, ctx.repo['api'])
+    _mr.filepath_rule(ctx, 'R20.7', only={'util'})
     from . import callsigs as _cs2
     _cs2.scratch_buffer_rule(ctx, 'R20.5')
     from . import callsigs as _cs
-    _cs.general_rules(ctx, 'R20', ['api.ParquetFile', 'writer.make_part_file', 'writer.make_row_group', 'core.read_row_group', 'core.read_row_group_arrays', 'writer.write_common_metadata', 'writer.consolidate_categories'])
+    _cs.general_rules(ctx, 'R20', ['api.ParquetFile', 'writer.make_part_file', 'writer.make_row_group', 'core.read_row_group', 'core.read_row_group_arrays', 'writer.write_common_metadata', 'writer.consolidate_categories', 'util.metadata_from_many', 'compression'])
 
 
 def _reachable(ctx):
@@ -226,6 +230,12 @@ def r202(ctx):
         ctx.ob('R20.2', 'api.__getitem__:derived-handle-inherits-only-dataset-level-state', not extra,
                'state forwarded to the sliced handle: %s; anything computed from the parent\'s row groups (statistics, '
                'category caches ...) is stale for the slice: %s' % (keys, extra or 'none'), api.loc(f))
+    if ok:
+        for k_, v_ in zip(state[0].args[0].keys, state[0].args[0].values):
+            if isinstance(k_, ast.Constant) and k_.value != 'fmd':
+                ctx.ob('R20.2', 'api.__getitem__:forwarded-state-%s-is-the-parents-own' % k_.value, norm(v_) == 'self.%s' % k_.value,
+                       '"%s": %s - a sliced handle answers metadata questions (dtypes, time zones, column index type) from the '
+                       'state of the handle it came from; anything else makes partial reads disagree with the full read' % (k_.value, norm(v_)), api.loc(v_))
     rets = [s for s in iter_child_stmts(f.body) if isinstance(s, ast.Return)]
     ctx.ob('R20.2', 'api.__getitem__:always-returns-the-newly-built-handle',
            len(rets) == 1 and norm(rets[0]) == 'return new_pf' and rets[0] in f.body,
